@@ -13,7 +13,8 @@ OBS_LATE = "C15:late-reply-notified"
 
 def dedupe_ids(line):
     """K:/T: tokens with each group once: beyond the Duration bound every entry is due at EVERY 1 ms iteration, so the
-    number of requests per scripted tick depends on how many iterations fit into the observation window."""
+    number of requests per scripted tick depends on how many iterations fit into the observation window (and a few of
+    them are still in flight when an expiry cuts the stream off)."""
     out = []
     for tok in line.split():
         bang = "!" if tok.startswith("!") else ""
@@ -21,6 +22,10 @@ def dedupe_ids(line):
         if t[:2] in ("K:", "T:") and "BAD" not in t:
             ids = sorted(set(x for x in t[2:].split(",") if x), key=int)
             tok = bang + t[:2] + ",".join(ids)
+        elif t[:1] in ("X", "E") and "+" in t:
+            # requests still in flight when the stream that never pauses is cut off by the expiry (each request is
+            # delivered by its own goroutine): below the model's granularity, see design_notes/C15.md
+            tok = bang + t.split("+", 1)[0]
         out.append(tok)
     return " ".join(out)
 
